@@ -46,6 +46,16 @@ def u_prep_opt(U):
             U.post(f'{nm}-integer-dtype', p, z3.BoolVal(ok and R.dtype == 'i'))
 
 
+def post_digit(out, x, b):
+    """Contract clause of ind_tt_to_qtt per element: the digit at [.., q*k + b] is bit b of the index component x."""
+    return out == bit(x, b)
+
+
+def post_value(out, blk, q):
+    """Contract clause of ind_qtt_to_tt per element: component k is the little-endian binary value of block k."""
+    return out == hval(blk, 0, q)
+
+
 def call_prep_opt_int(ex, st, args, kwargs, node):
     """grid_prep_opt(I, kind=int) for an integer ndarray: proved by unit grid.grid_prep_opt.int_array."""
     v = st.deref(args[0])
@@ -87,9 +97,9 @@ def _ind_tt_to_qtt(U, many):
     m, d, q0, n = z3.Ints('m d q n')
     s_, k_, b_ = z3.Ints('s!c k!c b!c')
     if many:
-        Iarr = z3.Const('I', IM)
-        Iv = X.imat_of(Iarr, m, d)
-        src = lambda s, k: Iarr[s][k]
+        Irows = X.rows_fn('I')
+        Iv = X.imat_of(Irows, m, d)
+        src = lambda s, k: Irows(s)[k]
         mm = m
     else:
         Irow = z3.Const('I', IA)
@@ -103,11 +113,12 @@ def _ind_tt_to_qtt(U, many):
             raise M.ContractMismatch('ind_tt_to_qtt: I / I_qtt are no longer the integer matrices of the contract')
         body = z3.Implies(z3.And(0 <= s_, s_ < mm, 0 <= k_, k_ < j, 0 <= b_, b_ < q0), B.ent(s_, k_, b_) == bit(src(s_, k_), b_))
         return [('array-shape-kept', z3.And(Z(B.shape[0]) == mm, Z(B.shape[1]) == T.mul_canon(d, q0))),
-                ('blocks-filled-so-far-hold-the-bits', z3.ForAll([s_, k_, b_], body, patterns=[B.arr[s_][k_][b_]] if B.arr is not None else []))]
+                ('blocks-filled-so-far-hold-the-bits', z3.ForAll([s_, k_, b_], body, patterns=[B.blkarr(s_, k_)[b_]] if B.blkarr is not None else []))]
 
     def hook(ex, h, pre, j):
         old = pre.vars['I_qtt']
-        h.vars['I_qtt'] = X.iblk_of(ex.fresh('Iqtt', IB), old.shape[0], d, q0, old.shape[1])
+        ex.cnt += 1
+        h.vars['I_qtt'] = X.iblk_of(X.blocks_fn(f'Iqtt!{ex.cnt}'), old.shape[0], d, q0, old.shape[1])
         h.vars['I'] = pre.vars['I']
 
     ex = U.executor(fn, loops={0: {'inv': inv, 'havoc_hook': hook}}, axioms=T.axioms('pow2', 'mulI'),
@@ -144,7 +155,7 @@ def _ind_tt_to_qtt(U, many):
             U.post('shape-(d*q,)', p, Z(R.shape[0]) == T.mul_canon(d, q0), axioms=AX, mode='ematch')
         U.post('d-blocks-of-q-digits', p, z3.And(Z(R.nblk) == d, Z(R.bw) == q0), axioms=AX, mode='ematch')
         rng = z3.And(0 <= s_, s_ < mm, 0 <= k_, k_ < d, 0 <= b_, b_ < q0)
-        U.post('entry-[q*k+j]-is-bit-j-of-component-k (little endian)', p, z3.Implies(rng, ent(s_, k_, b_) == bit(src(s_, k_), b_)),
+        U.post('entry-[q*k+j]-is-bit-j-of-component-k (little endian)', p, z3.Implies(rng, post_digit(ent(s_, k_, b_), src(s_, k_), b_)),
                axioms=AX, mode='ematch')
         U.post('entries-are-binary-digits', p, z3.Implies(rng, z3.And(ent(s_, k_, b_) >= 0, ent(s_, k_, b_) <= 1)), axioms=AX, mode='ematch')
         U.canary('canary-all-digits-zero', p, z3.Implies(rng, ent(s_, k_, b_) == 0), axioms=AX)
@@ -158,3 +169,537 @@ def u_i2q_batch(U):
 @unit('grid.ind_tt_to_qtt.single', props=('C17',))
 def u_i2q_single(U):
     _ind_tt_to_qtt(U, False)
+
+
+# ----------------------------------------------------------------------------------------------
+# 2. grid.ind_qtt_to_tt, element level
+
+def lemma_len_div_q(U, total, d0, q):
+    """int(total / q) = d0 for total = mulI(d0, q) = d0*q, q >= 1 (one instance of the definition of mulI as a hint)."""
+    v = z3.ToReal(total) / z3.ToReal(q)
+    dc = z3.If(v >= 0, z3.ToInt(v), -z3.ToInt(-v))
+    U.lemma('int((d*q)/q)-is-d', [q >= 1, d0 >= 0, X.mulI_instance(total)], dc == d0, qf=True)
+    return dc, dc == d0
+
+
+def _ind_qtt_to_tt(U, many):
+    """out[.., k] = sum_j I_qtt[.., q*k + j] * 2^j (= hval(block k, 0, q)); shape (m, d) / (d,); integer dtype.
+    Precondition: q >= 1, the array has d*q columns, every entry is a binary digit, m >= 1.
+    NOT covered here: list arguments (ndarray only); a column count that is not a multiple of q."""
+    fn = U.func('grid', 'ind_qtt_to_tt')
+    m, d, q = z3.Ints('m d q')
+    s_, k_, b_ = z3.Ints('s!c k!c b!c')
+    total = T.mul_canon(d, q)
+    if many:
+        Bf = X.blocks_fn('I_qtt')
+        Bv = X.iblk_of(Bf, m, d, q, total)
+        blk = lambda s, k: Bf(s, k)
+        mm = m
+    else:
+        Bf = X.rows_fn('I_qtt')
+        Bv = X.ibvec_of(Bf, d, q, total)
+        blk = lambda s, k: Bf(k)
+        mm = z3.IntVal(1)
+
+    def inv(ex, s, j):
+        Ic, Bc = s.vars.get('I'), s.vars.get('I_qtt')
+        if not (isinstance(Ic, X.IMat) and isinstance(Bc, X.IBlk)):
+            raise M.ContractMismatch('ind_qtt_to_tt: I / I_qtt are no longer the integer matrices of the contract')
+        body = z3.Implies(z3.And(0 <= s_, s_ < mm, 0 <= k_, k_ < j), Ic.ent(s_, k_) == hval(blk(s_, k_), 0, q))
+        pats = [Ic.rowarr(s_)[k_]] if Ic.rowarr is not None else []
+        return [('array-shape-kept', z3.And(Z(Ic.shape[0]) == mm, Z(Ic.shape[1]) == d)),
+                ('components-so-far-are-the-binary-values-of-their-blocks', z3.ForAll([s_, k_], body, patterns=pats))]
+
+    def hook(ex, h, pre, j):
+        old = pre.vars['I']
+        ex.cnt += 1
+        h.vars['I'] = X.imat_of(X.rows_fn(f'Itt!{ex.cnt}'), old.shape[0], old.shape[1])
+        h.vars['I_qtt'] = pre.vars['I_qtt']
+
+    ex = U.executor(fn, loops={0: {'inv': inv, 'havoc_hook': hook}}, axioms=T.axioms('mulI', 'hval'),
+                    callees={'grid.grid_prep_opt': call_prep_opt_int})
+    ex.qtt = True
+    ex.mode = 'ematch'
+    AX = ex.axioms
+    st = U.state()
+    st.vars.update(I_qtt=Bv, q=q)
+    digits = z3.ForAll([s_, k_, b_], z3.Implies(z3.And(0 <= k_, k_ < d, 0 <= b_, b_ < q), z3.And(blk(s_, k_)[b_] >= 0, blk(s_, k_)[b_] <= 1)),
+                       patterns=[blk(s_, k_)[b_]]) if many else \
+        z3.ForAll([k_, b_], z3.Implies(z3.And(0 <= k_, k_ < d, 0 <= b_, b_ < q), z3.And(Bf(k_)[b_] >= 0, Bf(k_)[b_] <= 1)),
+                  patterns=[Bf(k_)[b_]])
+    dcode, lem = lemma_len_div_q(U, total, d, q)
+    res = U.run(ex, st, pre=[m >= 1, d >= 0, q >= 1, digits, lem])
+    U.cover('precondition-satisfiable', U.pre, axioms=AX)
+    for p, o in res:
+        if o.kind != 'return':
+            U.post('no-exception', p, False, axioms=AX, mode='ematch')
+            continue
+        if not z3.eq(Z(p.vars['d']), dcode):
+            raise M.ContractMismatch('ind_qtt_to_tt: d is no longer int(I_qtt.shape[1] / q)')
+        R = p.deref(o.value)
+        if many:
+            ok = isinstance(R, X.IMat)
+            ent = (lambda s, k: R.ent(s, k)) if ok else None
+        else:
+            ok = X.is_ivec(R)
+            ent = (lambda s, k: R.t[k]) if ok else None
+        U.post('result-is-an-integer-array', p, z3.BoolVal(ok and R.dtype == 'i'))
+        if not ok:
+            continue
+        if many:
+            U.post('shape-(m, d)', p, z3.And(Z(R.shape[0]) == m, Z(R.shape[1]) == d), axioms=AX, mode='ematch')
+        else:
+            U.post('shape-(d,)', p, Z(R.shape[0]) == d, axioms=AX, mode='ematch')
+        rng = z3.And(0 <= s_, s_ < mm, 0 <= k_, k_ < d)
+        U.post('component-k-is-sum_j-digit[q*k+j]*2^j', p, z3.Implies(rng, post_value(ent(s_, k_), blk(s_, k_), q)), axioms=AX, mode='ematch')
+        U.canary('canary-all-components-zero', p, z3.Implies(rng, ent(s_, k_) == 0), axioms=AX)
+
+
+@unit('grid.ind_qtt_to_tt.batch', props=('C17',))
+def u_q2i_batch(U):
+    _ind_qtt_to_tt(U, True)
+
+
+@unit('grid.ind_qtt_to_tt.single', props=('C17',))
+def u_q2i_single(U):
+    _ind_qtt_to_tt(U, False)
+
+
+# ----------------------------------------------------------------------------------------------
+# round trips: the two index maps are inverse bijections (a lemma over the two contracts above, per index component;
+# both maps act independently on every sample and every component, so this is the statement for batches as well)
+
+@unit('grid.ind_maps.round_trip', props=('C17',))
+def u_round_trip(U):
+    """For every q >= 0 (no bound), with D = {0, ..., 2^q - 1} and B = {0,1}^q:
+      * ind_tt_to_qtt maps D into B (proved in the unit above: entries-are-binary-digits) and ind_qtt_to_tt maps B into D;
+      * qtt_to_tt(tt_to_qtt(x)) = x for x in D and tt_to_qtt(qtt_to_tt(a)) = a for a in B.
+      * (C) for binary digits the Horner form hval(a, 0, q) used in the contract of ind_qtt_to_tt equals sum_j a[j]*2^j.
+    The contracts enter as hypotheses in exactly the form the two units prove them (post_digit / post_value).  All steps
+    are linear integer arithmetic over the recursive definitions of shr, hval and pow2 (inductions written out)."""
+    U.func('grid', 'ind_tt_to_qtt')
+    U.func('grid', 'ind_qtt_to_tt')
+    AXR = T.axioms('pow2', 'hval') + SHR_DEF
+    q, x, y, k, b = z3.Ints('q x y k b')
+    a = z3.Const('a', IA)
+    U.cover('hypotheses-satisfiable', [q >= 1, x >= 0, x < T.pow2(q)], axioms=AXR)
+
+    # ---- A: bits of x, then their binary value
+    digits_of_x = z3.ForAll([b], z3.Implies(z3.And(0 <= b, b < q), post_digit(a[b], x, b)), patterns=[a[b]])
+    ctxA = [q >= 0, x >= 0, x < T.pow2(q), digits_of_x, post_value(y, a, q)]
+    P1 = lambda t: z3.And(shr(x, t) >= 0, shr(x, t) < T.pow2(q - t))
+    U.lemma('A1: 0 <= x div 2^k < 2^(q-k).base', ctxA, P1(z3.IntVal(0)), axioms=AXR, mode='ematch', kind='lemma-base')
+    U.lemma('A1: 0 <= x div 2^k < 2^(q-k).step', ctxA + [0 <= k, k < q, P1(k)], P1(k + 1), axioms=AXR, mode='ematch', kind='lemma-step')
+    A1 = z3.ForAll([k], z3.Implies(z3.And(0 <= k, k <= q), P1(k)), patterns=[shr(x, k)])
+    P2 = lambda t: hval(a, t, q) == shr(x, t)
+    U.lemma('A2: value of the digits from k on is x div 2^k.base', ctxA + [A1], P2(q), axioms=AXR, mode='ematch', kind='lemma-base')
+    U.lemma('A2: value of the digits from k on is x div 2^k.step', ctxA + [0 <= k, k < q, P2(k + 1)], P2(k), axioms=AXR, mode='ematch',
+            kind='lemma-step')
+    A2 = z3.ForAll([k], z3.Implies(z3.And(0 <= k, k <= q), P2(k)), patterns=[hval(a, k, q)])
+    U.post('qtt_to_tt-after-tt_to_qtt-is-the-identity', ctxA + [A2], y == x, axioms=AXR, mode='ematch')
+    U.canary('canary-A-context-inconsistent', ctxA + [A1, A2, q >= 1], False, axioms=AXR)
+
+    # ---- B: binary value of digits a, then its bits
+    digits = z3.ForAll([b], z3.Implies(z3.And(0 <= b, b < q), z3.Or(a[b] == 0, a[b] == 1)), patterns=[a[b]])
+    ctxB = [q >= 0, digits, post_value(y, a, q)]
+    Q1 = lambda t: z3.And(hval(a, t, q) >= 0, hval(a, t, q) < T.pow2(q - t))
+    U.lemma('B1: 0 <= value of the digits from k on < 2^(q-k).base', ctxB, Q1(q), axioms=AXR, mode='ematch', kind='lemma-base')
+    U.lemma('B1: 0 <= value of the digits from k on < 2^(q-k).step', ctxB + [0 <= k, k < q, Q1(k + 1)], Q1(k), axioms=AXR, mode='ematch',
+            kind='lemma-step')
+    B1 = z3.ForAll([k], z3.Implies(z3.And(0 <= k, k <= q), Q1(k)), patterns=[hval(a, k, q)])
+    U.post('qtt_to_tt-maps-digit-strings-into-the-index-range', ctxB + [B1], z3.And(y >= 0, y < T.pow2(q)), axioms=AXR, mode='ematch')
+    Q2 = lambda t: shr(y, t) == hval(a, t, q)
+    U.lemma('B2: y div 2^k is the value of the digits from k on.base', ctxB, Q2(z3.IntVal(0)), axioms=AXR, mode='ematch', kind='lemma-base')
+    U.lemma('B2: y div 2^k is the value of the digits from k on.step', ctxB + [0 <= k, k < q, Q2(k)], Q2(k + 1), axioms=AXR, mode='ematch',
+            kind='lemma-step')
+    B2 = z3.ForAll([k], z3.Implies(z3.And(0 <= k, k <= q), Q2(k)), patterns=[shr(y, k)])
+    out = z3.Int('digit_back')      # the digit that ind_tt_to_qtt produces from y at offset b (its contract); the instance
+    # Q1(b+1) of lemma B1 brings the term hval(a, b+1, q) in, so that the recursive definition of hval is instantiated at b
+    U.post('tt_to_qtt-after-qtt_to_tt-is-the-identity', ctxB + [B2, 0 <= b, b < q, post_digit(out, y, b), Q1(b + 1)],
+           out == a[b], axioms=AXR, mode='ematch')
+    U.canary('canary-B-context-inconsistent', ctxB + [B1, B2, q >= 1], False, axioms=AXR)
+    U.canary('canary-digits-are-all-zero', ctxB + [B2, 0 <= b, b < q], a[b] == 0, axioms=AXR)
+
+    # ---- C: the Horner form hval(a, 0, n) IS the sum  sum_{j<n} a[j]*2^j  for binary digits (so the contract clause of
+    # ind_qtt_to_tt reads literally as in the property statement).  psum is that sum, defined by recursion on the number of
+    # terms; for a digit in {0,1} the term a[j]*2^j is written If(a[j] == 1, 2^j, 0), which keeps the arithmetic linear.
+    psum = z3.Function('psum', IA, z3.IntSort(), z3.IntSort())
+    j = z3.Int('j')
+    term = lambda t: z3.If(a[t] == 1, T.pow2(t), 0)
+    PSUM = [psum(a, 0) == 0,
+            z3.ForAll([k, j], z3.Implies(z3.And(k >= 0, j == k + 1), psum(a, j) == psum(a, k) + term(k)),
+                      patterns=[z3.MultiPattern(psum(a, k), psum(a, j))])]
+    N, n = z3.Ints('N n')
+    digitsN = z3.ForAll([b], z3.Implies(z3.And(0 <= b, b < N), z3.Or(a[b] == 0, a[b] == 1)), patterns=[a[b]])
+    ctxC = [digitsN, 0 <= n, n < N]
+    H = lambda t: hval(a, t, n + 1) == hval(a, t, n) + z3.If(a[n] == 1, T.pow2(n - t), 0)
+    U.lemma('C1: one more digit adds digit*2^(n-k) to the value from k on.base', ctxC, H(n), axioms=AXR, mode='ematch', kind='lemma-base',
+            extra=[hval(a, n + 1, n + 1) == 0])          # instance of the base clause of hval (brings the term in)
+    U.lemma('C1: one more digit adds digit*2^(n-k) to the value from k on.step', ctxC + [0 <= k, k < n, H(k + 1)], H(k), axioms=AXR,
+            mode='ematch', kind='lemma-step')
+    U.lemma('C2: Horner value = sum_j digit_j*2^j.base', [digitsN] + PSUM, psum(a, 0) == hval(a, 0, 0), axioms=AXR, mode='ematch',
+            kind='lemma-base')
+    U.lemma('C2: Horner value = sum_j digit_j*2^j.step', ctxC + PSUM + [H(z3.IntVal(0)), psum(a, n) == hval(a, 0, n)],
+            psum(a, n + 1) == hval(a, 0, n + 1), axioms=AXR, mode='ematch', kind='lemma-step')
+    U.canary('canary-C-context-inconsistent', ctxC + PSUM + [H(z3.IntVal(0)), psum(a, n) == hval(a, 0, n), n >= 1], False, axioms=AXR)
+
+
+# ----------------------------------------------------------------------------------------------
+# 3. core.core_qtt_to_tt and act_one.qtt_to_tt, shape level
+
+AXC = T.axioms('shape', 'mulI', 'pow2', 'mulpow2')
+t_, t2_ = z3.Ints('t!w t2!w')
+
+
+def qtt_block_ok(arr, q):
+    """A run of q QTT-cores: mode size 2, positive ranks, neighbouring ranks agree (no condition on the outer ranks)."""
+    return [q >= 1,
+            z3.ForAll([t_], z3.Implies(z3.And(0 <= t_, t_ < q), z3.And(T.d0(arr[t_]) >= 1, T.d1(arr[t_]) == 2, T.d2(arr[t_]) >= 1)),
+                      patterns=[arr[t_]]),
+            z3.ForAll([t_, t2_], z3.Implies(z3.And(0 <= t_, t2_ == t_ + 1, t2_ < q), T.d2(arr[t_]) == T.d0(arr[t2_])),
+                      patterns=[z3.MultiPattern(arr[t_], arr[t2_])])]
+
+
+def merged_core_post(shape, arr, q):
+    """The TT-core made of q QTT-cores: outer ranks kept, mode size 2^q (what the caller qtt_to_tt relies on)."""
+    return {'left-rank-is-that-of-the-first-core': Z(shape[0]) == T.d0(arr[0]),
+            'mode-size-2^q': Z(shape[1]) == T.pow2(q),
+            'right-rank-is-that-of-the-last-core': Z(shape[2]) == T.d2(arr[q - 1])}
+
+
+@unit('core.core_qtt_to_tt', props=('C17',))
+def u_core_qtt_to_tt(U):
+    """core_qtt_to_tt(Q_list): a 3-D array (r_0, 2^q, r_q) for every q >= 1; no exception (all contracted dimensions agree,
+    every reshape is size-preserving); the result is a fresh array, never Q_list[0] itself (also for q = 1: the first
+    iteration is peeled so that the q = 1 path returns what `Q_list[0].copy()` returned).
+    NOT covered: the entries of the merged core (Fortran-order merge of the mode axes) - bounded suite."""
+    fn = U.func('core', 'core_qtt_to_tt')
+    q = z3.Int('q')
+    st = U.state()
+    Ql, Q, _ = S.tt_param(st, 'Q_list', q)
+
+    def inv(ex, s, j):
+        G = s.vars.get('G')
+        if not (isinstance(G, VArr) and G.ndim == 3):
+            raise M.ContractMismatch('core_qtt_to_tt: G is no longer a 3-D array at the loop head')
+        return [('left-rank-kept', Z(G.shape[0]) == T.d0(Q[0])), ('mode-size-doubles', Z(G.shape[1]) == 2 * T.pow2(j)),
+                ('right-rank-is-that-of-the-last-merged-core', Z(G.shape[2]) == T.d2(Q[j]))]
+
+    ex = U.executor(fn, loops={0: {'inv': inv, 'peel': 1}}, axioms=AXC)
+    ex.qtt = True
+    ex.mode = 'ematch'
+    st.vars.update(Q_list=Ql)
+    res = U.run(ex, st, pre=qtt_block_ok(Q, q))
+    U.cover('precondition-satisfiable', U.pre, axioms=AXC)
+    for p, o in res:
+        if o.kind != 'return':
+            U.post('no-exception', p, False, axioms=AXC, mode='ematch')
+            continue
+        G = p.deref(o.value)
+        ok = isinstance(G, VArr) and G.ndim == 3
+        U.post('result-is-a-3-D-array', p, z3.BoolVal(ok))
+        if not ok:
+            continue
+        for lbl, g in merged_core_post(G.shape, Q, q).items():
+            U.post(lbl, p, g, axioms=AXC, mode='ematch')
+        U.post('dimensions-positive', p, z3.And([Z(x) >= 1 for x in G.shape]), axioms=AXC, mode='ematch')
+        U.post('result-is-a-fresh-array (not the argument core itself)', p,
+               z3.BoolVal(not getattr(G, 'shared', False) and p.heap[Ql.oid].arr is Q))
+        U.canary('canary-mode-size-2', p, Z(G.shape[1]) == 2, axioms=AXC)
+
+
+def call_core_qtt_to_tt(ex, st, args, kwargs, node):
+    """core_qtt_to_tt(Q_list): contract proved by unit core.core_qtt_to_tt."""
+    L = st.deref(args[0])
+    if len(args) != 1 or kwargs or not (isinstance(L, VSeq) and L.tag == 'core' and L.arr is not None):
+        raise M.Unsupported('core_qtt_to_tt: the argument must be a list of cores')
+    for i, c in enumerate(qtt_block_ok(L.arr, L.n)):
+        ex.oblige(st, 'call-pre', 'core_qtt_to_tt: ' + ('at least one core', 'mode sizes 2 and positive ranks', 'neighbouring ranks agree')[i],
+                  c, node, assume=False)
+    g = ex.fresh('Gtt', T.Core)
+    out = M.mk_core(g)
+    for lbl, f in merged_core_post(out.shape, L.arr, L.n).items():
+        st.assume(f)
+    return out
+
+
+def wf_blocks(Yb, d, q):
+    """wf of the flat list of d*q cores, written in block coordinates (element [q*k + b] = Yb(k)[b]), mode sizes 2."""
+    k, k2, b, b2 = z3.Ints('k!y k2!y b!y b2!y')
+    return [d >= 1, q >= 1, T.d0(Yb(0)[0]) == 1, T.d2(Yb(d - 1)[q - 1]) == 1,
+            z3.ForAll([k, b], z3.Implies(z3.And(0 <= k, k < d, 0 <= b, b < q),
+                                         z3.And(T.d0(Yb(k)[b]) >= 1, T.d1(Yb(k)[b]) == 2, T.d2(Yb(k)[b]) >= 1)), patterns=[Yb(k)[b]]),
+            z3.ForAll([k, b, b2], z3.Implies(z3.And(0 <= k, k < d, 0 <= b, b2 == b + 1, b2 < q), T.d2(Yb(k)[b]) == T.d0(Yb(k)[b2])),
+                      patterns=[z3.MultiPattern(Yb(k)[b], Yb(k)[b2])]),
+            z3.ForAll([k, k2], z3.Implies(z3.And(0 <= k, k2 == k + 1, k2 < d), T.d2(Yb(k)[q - 1]) == T.d0(Yb(k2)[0])),
+                      patterns=[z3.MultiPattern(Yb(k), Yb(k2))])]
+
+
+@unit('act_one.qtt_to_tt', props=('C17',))
+def u_qtt_to_tt(U):
+    """qtt_to_tt(Y, q) for a well-formed QTT-tensor of d*q cores of mode size 2 (d >= 1, q >= 1): a new list of d cores of
+    shape (r1, 2^q, r2) whose outer ranks are the bonds between the blocks; boundary ranks 1, neighbouring ranks agree,
+    all dimensions >= 1 (= wf for d >= 2); the argument list is not modified.  NOT covered: values (bounded suite)."""
+    fn = U.func('act_one', 'qtt_to_tt')
+    d, q = z3.Ints('d q')
+    Yb = X.core_blocks_fn('Y')
+    total = T.mul_canon(d, q)
+    st = U.state()
+    Yv = X.BSeq(Yb, d, q, total)
+    Y = st.alloc(Yv)
+
+    def inv(ex, s, j):
+        Zs = s.deref(s.vars['Z'])
+        return [('length', Zs.n == j),
+                ('merged-cores', z3.ForAll([t_], z3.Implies(z3.And(0 <= t_, t_ < j), z3.And(list(merged_core_post(
+                    (T.d0(Zs.arr[t_]), T.d1(Zs.arr[t_]), T.d2(Zs.arr[t_])), Yb(t_), q).values()))), patterns=[Zs.arr[t_]])),
+                ('argument-untouched', z3.BoolVal(s.heap[Y.oid].blk is Yb))]
+
+    AX = AXC
+    ex = U.executor(fn, loops={0: {'inv': inv}}, axioms=AX, type_hints={'Z': 'tt'}, callees={'core.core_qtt_to_tt': call_core_qtt_to_tt})
+    ex.qtt = True
+    ex.mode = 'ematch'
+    st.vars.update(Y=Y, q=q)
+    dcode, lem = lemma_len_div_q(U, total, d, q)
+    res = U.run(ex, st, pre=wf_blocks(Yb, d, q) + [lem])
+    U.cover('precondition-satisfiable', U.pre, axioms=AX)
+    kk = z3.Int('kk')
+    for p, o in res:
+        if o.kind != 'return':
+            U.post('no-exception', p, False, axioms=AX, mode='ematch')
+            continue
+        if not z3.eq(Z(p.vars['d']), dcode):
+            raise M.ContractMismatch('qtt_to_tt: d is no longer int(len(Y) / q)')
+        Zs = p.deref(o.value)
+        R = Zs.arr
+        U.post('fresh-list-and-argument-untouched', p, z3.BoolVal(isinstance(o.value, VRef) and o.value.oid != Y.oid and p.heap[Y.oid].blk is Yb))
+        U.post('d-cores', p, Zs.n == d, axioms=AX, mode='ematch')
+        U.post('mode-sizes-2^q', p, z3.Implies(z3.And(0 <= kk, kk < d), T.d1(R[kk]) == T.pow2(q)), axioms=AX, mode='ematch')
+        U.post('ranks-are-the-bonds-between-the-blocks', p,
+               z3.Implies(z3.And(0 <= kk, kk < d), z3.And(T.d0(R[kk]) == T.d0(Yb(kk)[0]), T.d2(R[kk]) == T.d2(Yb(kk)[q - 1]))), axioms=AX, mode='ematch')
+        U.post('boundary-ranks-1', p, z3.And(T.d0(R[0]) == 1, T.d2(R[d - 1]) == 1), axioms=AX, mode='ematch')
+        U.post('neighbour-ranks-match', p, z3.Implies(z3.And(0 <= kk, kk < d - 1), T.d2(R[kk]) == T.d0(R[kk + 1])), axioms=AX, mode='ematch')
+        U.post('dimensions-positive', p, z3.Implies(z3.And(0 <= kk, kk < d), z3.And(T.d0(R[kk]) >= 1, T.d1(R[kk]) >= 1, T.d2(R[kk]) >= 1)),
+               axioms=AX, mode='ematch')
+        U.post('well-formed (d >= 2)', list(p.pc) + [d >= 2], T.wf(R, d), axioms=AX, mode='ematch')
+        U.canary('canary-all-ranks-1', p, z3.Implies(z3.And(0 <= kk, kk < d), T.d2(R[kk]) == 1), axioms=AX)
+
+
+# ----------------------------------------------------------------------------------------------
+# 4. core.core_tt_to_qtt and act_one.tt_to_qtt, shape level (given the contract of matrix_svd)
+
+def capf(r):
+    c = z3.ToInt(r) if Z(r).sort() == z3.RealSort() else Z(r)
+    return z3.If(c >= 1, c, 1)
+
+
+def qtt_cores_post(arr, n, q, r1, r2, cap):
+    """The q QTT-cores made from one TT-core (r1, 2^q, r2): what the caller tt_to_qtt relies on."""
+    return {'q-cores': n == q,
+            'outer-ranks-kept': z3.And(T.d0(arr[0]) == r1, T.d2(arr[q - 1]) == r2),
+            'mode-sizes-2-and-positive-ranks': z3.ForAll([t_], z3.Implies(z3.And(0 <= t_, t_ < q), z3.And(
+                T.d0(arr[t_]) >= 1, T.d1(arr[t_]) == 2, T.d2(arr[t_]) >= 1)), patterns=[arr[t_]]),
+            'neighbouring-ranks-agree': z3.ForAll([t_, t2_], z3.Implies(z3.And(0 <= t_, t2_ == t_ + 1, t2_ < q), T.d2(arr[t_]) == T.d0(arr[t2_])),
+                                                  patterns=[z3.MultiPattern(arr[t_], arr[t2_])]),
+            'inner-ranks-at-most-max(1,cap)': z3.ForAll([t_], z3.Implies(z3.And(0 <= t_, t_ < q - 1), T.d2(arr[t_]) <= cap), patterns=[arr[t_]])}
+
+
+AXQ = T.axioms('shape', 'mulI', 'pow2', 'mulpow2', 'sub')
+
+
+@unit('core.core_tt_to_qtt.shapes', props=('C17',))
+def u_core_tt_to_qtt(U):
+    """core_tt_to_qtt(G, e, r) for G of shape (r1, 2^q, r2), q >= 1, e >= 0, r >= 0, under the contract of matrix_svd
+    (svd.matrix_svd: factor shapes, 1 <= rank <= max(1, int(r)), rank <= min dimension): a new list of q cores of mode
+    size 2, first left rank r1, last right rank r2, neighbouring ranks agree, every inner rank in [1, max(1, int(r))];
+    no exception on this domain (row counts halve exactly, all reshapes are size-preserving, the contracted dimensions of
+    the einsum agree).  The rejection of other mode sizes is the unit core.core_tt_to_qtt.gate (contracts/grid.py).
+    NOT covered: values / accuracy e (bounded suite); q = 0 (n = 1) is outside the precondition."""
+    from contracts.svd import call_matrix_svd
+    fn = U.func('core', 'core_tt_to_qtt')
+    q0 = z3.Int('q')
+    Gv, G = S.core_param('G')
+    e, r = z3.Real('e'), z3.Real('r')
+    r1, n, r2 = T.d0(G), T.d1(G), T.d2(G)
+    cap = capf(r)
+    st = U.state()
+    rowsA = lambda j: 2 * T.mul_canon(r1, T.pow2(q0 - 1 - j))
+
+    def inv(ex, s, j):
+        A, V0, Ys = s.vars.get('A'), s.vars.get('V0'), s.deref(s.vars['Y'])
+        if not (isinstance(A, VArr) and A.ndim == 2 and isinstance(V0, VArr) and V0.ndim == 2 and isinstance(Ys, VSeq)):
+            raise M.ContractMismatch('core_tt_to_qtt: A / V0 / Y no longer have the types of the contract')
+        c = Z(A.shape[1])
+        Y = Ys.arr
+        return [('length', Ys.n == j),
+                ('rows-of-A-halve', Z(A.shape[0]) == rowsA(j)),
+                ('bond-in-range', z3.And(c >= 1, c <= cap)),
+                ('bond-is-the-left-rank-of-the-last-core', z3.If(j == 0, c == Z(V0.shape[0]), z3.And(T.d0(Y[j - 1]) == c, T.d2(Y[0]) == Z(V0.shape[0])))),
+                ('cores-so-far', z3.ForAll([t_], z3.Implies(z3.And(0 <= t_, t_ < j), z3.And(T.d1(Y[t_]) == 2, T.d0(Y[t_]) >= 1, T.d0(Y[t_]) <= cap,
+                                                                                           T.d2(Y[t_]) >= 1, z3.Implies(t_ >= 1, T.d2(Y[t_]) <= cap))),
+                                          patterns=[Y[t_]])),
+                ('neighbours-so-far', z3.ForAll([t_, t2_], z3.Implies(z3.And(0 <= t_, t2_ == t_ + 1, t2_ < j), T.d2(Y[t2_]) == T.d0(Y[t_])),
+                                                patterns=[z3.MultiPattern(Y[t_], Y[t2_])]))]
+
+    ex = U.executor(fn, loops={0: {'inv': inv}}, axioms=AXQ, type_hints={'Y': 'tt'}, callees={'svd.matrix_svd': call_matrix_svd})
+    ex.qtt = True
+    ex.mode = 'ematch'
+    st.vars.update(G=Gv, e=e, r=r)
+    lem = lemma_log2_of_pow2(U, n, q0)
+    res = U.run(ex, st, pre=[r1 >= 1, r2 >= 1, q0 >= 1, n == T.pow2(q0), e >= 0, r >= 0, lem])
+    U.cover('precondition-satisfiable', U.pre, axioms=AXQ)
+    kk = z3.Int('kk')
+    for p, o in res:
+        if o.kind != 'return':
+            U.post('no-exception', p, False, axioms=AXQ, mode='ematch')
+            continue
+        if not z3.eq(Z(p.vars['d']), log2_int(n)):
+            raise M.ContractMismatch('core_tt_to_qtt: d is no longer int(np.log2(n))')
+        Rs = p.deref(o.value)
+        if not (isinstance(Rs, VSeq) and Rs.tag == 'core'):
+            U.post('result-is-a-list-of-cores', p, False)
+            continue
+        Ys = p.deref(p.vars['Y'])
+        U.post('fresh-list', p, z3.BoolVal(isinstance(o.value, VRef) and Rs is not Ys))
+        for lbl, g in qtt_cores_post(Rs.arr, Rs.n, q0, r1, r2, cap).items():
+            U.post(lbl, p, g, axioms=AXQ, mode='ematch')
+        U.canary('canary-all-inner-ranks-1', p, z3.Implies(z3.And(0 <= kk, kk < q0 - 1), T.d2(Rs.arr[kk]) == 1), axioms=AXQ)
+
+
+def call_core_tt_to_qtt(ex, st, args, kwargs, node):
+    """core_tt_to_qtt(G, e, r): contract proved by units core.core_tt_to_qtt.shapes (and .gate for the rejection).  The
+    quantisation level q with n = 2^q is the ghost `ex.qtt_q` of the calling unit."""
+    G = st.deref(args[0])
+    q = getattr(ex, 'qtt_q', None)
+    if q is None or kwargs or len(args) != 3 or not (isinstance(G, VArr) and G.ndim == 3):
+        raise M.Unsupported('core_tt_to_qtt: only the call (G, e, r) on a 3-D array with a known quantisation level is under contract')
+    e, r = ex.need_num(st, args[1], node), ex.need_num(st, args[2], node)
+    ex.oblige(st, 'call-pre', 'core_tt_to_qtt: ranks >= 1, mode size 2^q with q >= 1, e >= 0, r >= 0',
+              z3.And(Z(G.shape[0]) >= 1, Z(G.shape[2]) >= 1, q >= 1, Z(G.shape[1]) == T.pow2(q), Z(e) >= 0, Z(r) >= 0), node)
+    arr = ex.fresh('Qcores', T.TT)
+    for lbl, f in qtt_cores_post(arr, q, q, Z(G.shape[0]), Z(G.shape[2]), capf(r)).items():
+        st.assume(f)
+    st.ghost.setdefault('qtt_calls', []).append(dict(e=e, r=r))
+    return st.alloc(VSeq(arr, q, M.mk_core, tag='core'))
+
+
+@unit('act_one.tt_to_qtt', props=('C17',))
+def u_tt_to_qtt(U):
+    """tt_to_qtt(Y, e, r) for a well-formed TT-tensor with all mode sizes 2^q (q >= 1), e >= 0, r >= 0: a new list of d*q cores
+    (block view: block k = the q cores made from Y[k]) of mode size 2; the bonds between blocks are the TT-ranks of Y, every
+    bond inside a block lies in [1, max(1, int(r))]; boundary ranks 1, neighbouring ranks agree, all dimensions >= 1
+    (= wf of the flat list); e and r are handed to every core conversion unchanged; the argument is not modified.
+    NOT covered: values / accuracy (bounded suite); tensors whose modes have different sizes."""
+    fn = U.func('act_one', 'tt_to_qtt')
+    q = z3.Int('q')
+    st = U.state()
+    Y, A, d = S.tt_param(st, 'Y', z3.Int('d'))
+    e, r = z3.Real('e'), z3.Real('r')
+    cap = capf(r)
+    k, b, b2, k2 = z3.Ints('k!z b!z b2!z k2!z')
+
+    def facts(blk, hi):
+        """(label, formula) for the blocks 0 .. hi-1 of the result."""
+        rng = z3.And(0 <= k, k < hi)
+        return [('outer-ranks-of-block-k-are-the-TT-ranks-of-Y[k]',
+                 z3.ForAll([k], z3.Implies(rng, z3.And(T.d0(blk(k)[0]) == T.d0(A[k]), T.d2(blk(k)[q - 1]) == T.d2(A[k]))), patterns=X.pats(blk(k)))),
+                ('mode-sizes-2-and-positive-ranks',
+                 z3.ForAll([k, b], z3.Implies(z3.And(rng, 0 <= b, b < q), z3.And(T.d0(blk(k)[b]) >= 1, T.d1(blk(k)[b]) == 2, T.d2(blk(k)[b]) >= 1)),
+                           patterns=X.pats(blk(k)[b]))),
+                ('neighbouring-ranks-inside-a-block-agree',
+                 z3.ForAll([k, b, b2], z3.Implies(z3.And(rng, 0 <= b, b2 == b + 1, b2 < q), T.d2(blk(k)[b]) == T.d0(blk(k)[b2])),
+                           patterns=X.pats(blk(k)[b], blk(k)[b2]))),
+                ('bonds-inside-a-block-at-most-max(1,cap)',
+                 z3.ForAll([k, b], z3.Implies(z3.And(rng, 0 <= b, b < q - 1), T.d2(blk(k)[b]) <= cap), patterns=X.pats(blk(k)[b])))]
+
+    def inv(ex, s, j):
+        Zs = s.deref(s.vars['Z'])
+        if not isinstance(Zs, X.BSeq):
+            raise M.ContractMismatch('tt_to_qtt: Z is no longer the list in block view of the contract')
+        return [('one-block-per-processed-core', z3.And(Z(Zs.nblk) == j, Z(Zs.bw) == q))] + facts(Zs.blk, j) + \
+               [('argument-untouched', z3.BoolVal(s.heap[Y.oid].arr is A))]
+
+    def hook(ex, h, pre, j):
+        ex.cnt += 1
+        h.heap[h.vars['Z'].oid] = X.BSeq(X.core_blocks_fn(f'Zblk!{ex.cnt}'), j, q)
+
+    def body_end(ex_, s_, o_, j_):
+        calls = s_.ghost.get('qtt_calls', [])
+        ok = len(calls) == 1
+        ex_.oblige(s_, 'post', 'accuracy-and-rank-cap-are-passed-unchanged-to-every-core-conversion',
+                   z3.And(M.to_real(calls[0]['e']) == e, M.to_real(calls[0]['r']) == r) if ok else z3.BoolVal(False), None, assume=False)
+
+    AX = T.axioms('shape', 'mulI', 'pow2')
+    ex = U.executor(fn, loops={0: {'inv': inv, 'havoc_hook': hook, 'body_end': body_end}}, axioms=AX, type_hints={'Z': 'ttblocks'},
+                    callees={'core.core_tt_to_qtt': call_core_tt_to_qtt})
+    ex.qtt = True
+    ex.qtt_q = q
+    ex.mode = 'ematch'
+    st.vars.update(Y=Y, e=e, r=r)
+    modes = z3.ForAll([k], z3.Implies(z3.And(0 <= k, k < d), T.d1(A[k]) == T.pow2(q)), patterns=[A[k]])
+    res = U.run(ex, st, pre=[T.wf(A, d), q >= 1, modes, e >= 0, r >= 0])
+    U.cover('precondition-satisfiable', U.pre, axioms=AX)
+    for p, o in res:
+        if o.kind != 'return':
+            U.post('no-exception', p, False, axioms=AX, mode='ematch')
+            continue
+        Zs = p.deref(o.value)
+        ok = isinstance(Zs, X.BSeq)
+        U.post('result-is-a-list-of-cores-in-block-view', p, z3.BoolVal(ok))
+        if not ok:
+            continue
+        U.post('fresh-list-and-argument-untouched', p, z3.BoolVal(isinstance(o.value, VRef) and o.value.oid != Y.oid and p.heap[Y.oid].arr is A))
+        U.post('d-blocks-of-q-cores: length d*q', p, z3.And(Z(Zs.nblk) == d, Z(Zs.bw) == q, Zs.n == T.mul_canon(d, q)), axioms=AX, mode='ematch')
+        for lbl, g in facts(Zs.blk, d):
+            U.post(lbl, p, g, axioms=AX, mode='ematch')
+        U.post('boundary-ranks-1', p, z3.And(T.d0(Zs.blk(0)[0]) == 1, T.d2(Zs.blk(d - 1)[q - 1]) == 1), axioms=AX, mode='ematch')
+        U.post('neighbouring-ranks-between-blocks-agree', p,
+               z3.Implies(z3.And(0 <= k, k2 == k + 1, k2 < d), T.d2(Zs.blk(k)[q - 1]) == T.d0(Zs.blk(k2)[0])), axioms=AX, mode='ematch')
+        U.canary('canary-all-inner-bonds-1', p, z3.Implies(z3.And(0 <= k, k < d, 0 <= b, b < q - 1), T.d2(Zs.blk(k)[b]) == 1), axioms=AX)
+
+
+# ----------------------------------------------------------------------------------------------
+# Hand-made mutants (MUT_BASE=/tmp/base tools/mut.sh <file> '<sed>' <unit>) and the NAMED obligation that reports each.
+#
+# grid.py / grid.ind_tt_to_qtt.batch + .single
+#   230s/order='F'/order='C'/                 inv-keep loop0.blocks-filled-so-far-hold-the-bits               (failed)
+#   229s/I\[:, i\]/I[:, 0]/                   inv-keep loop0.blocks-filled-so-far-hold-the-bits               (failed)
+#   232s/q\*i:q\*(i+1)/d*i:d*(i+1)/           call-pre block-slice-width-is-the-block-width                   (failed)
+#   231s/\.T$//                               call-pre block-assignment-shape-matches                         (failed)
+#   228s/range(d)/range(d-1)/                 post entry-[q*k+j]-is-bit-j-of-component-k, entries-are-binary-digits (failed)
+#   227s/d\*q/d*d/                            inv-init loop0.array-shape-kept                                 (failed)
+#   230s/I_curr, n_qtt/I_curr+1, n_qtt/       call-pre unravel_index: every index lies in [0, 2^q)            (failed)
+#   234s/I_qtt\[0, :\]/I_qtt[:, 0]/           (.single) safety array-index-in-range, post result-is-an-integer-array-in-block-view (refuted)
+# grid.py / grid.ind_qtt_to_tt.batch + .single
+#   139s/order='F'/order='C'/                 inv-keep loop0.components-so-far-are-the-binary-values-of-their-blocks (failed)
+#   138s/q\*i:q\*(i+1)/d*i:d*(i+1)/           call-pre block-slice-width-is-the-block-width                   (failed)
+#   138s/\.T$//                               call-pre ravel_multi_index: one row of digits per dimension     (failed)
+#   137s/range(d)/range(d-1)/                 post component-k-is-sum_j-digit[q*k+j]*2^j                      (failed)
+#   139s/I\[:, i\]/I[:, 0]/                   inv-keep loop0.components-so-far-are-the-binary-values-of-their-blocks (failed)
+# core.py / core.core_qtt_to_tt
+#   70s/\.copy()//                            post result-is-a-fresh-array (not the argument core itself)     (refuted, q = 1 path)
+#   72s/Q_list\[1:\]/Q_list[2:]/              inv-init / inv-keep loop0.right-rank-..., post mode-size-2^q     (failed)
+#   70s/Q_list\[0\]/Q_list[-1]/               call-pre tensordot-contracted-dims-agree, inv-init loop0.left-rank-kept (failed)
+#   72s/Q_list\[1:\]/Q_list[:-1]/             call-pre tensordot-contracted-dims-agree                        (failed)
+# act_one.py / act_one.qtt_to_tt
+#   293s/Y\[k\*q:(k+1)\*q\]/Y[k*q:(k+1)*q][::-1]/   call-pre core_qtt_to_tt: neighbouring ranks agree          (failed)
+#   292s/range(d)/range(d-1)/                 post boundary-ranks-1, neighbour-ranks-match, well-formed        (failed)
+#   293s/k\*q:(k+1)\*q/k*d:(k+1)*d/           call-pre block-slice-width-is-the-block-width                   (failed)
+#   294s/G_list/Y[0*q:(0+1)*q]/               inv-keep loop0.merged-cores                                     (failed)
+# core.py / core.core_tt_to_qtt.shapes
+#   132s/\/\/ 2/\/\/ 4/                       call-pre hstack-rows-agree                                      (failed)
+#   134s/A\[As:\]/A[As+1:]/                   call-pre hstack-rows-agree                                      (failed)
+#   136s/(-1, 2, q)/(-1, q, 2)/               inv-keep loop0.cores-so-far, neighbours-so-far                  (failed)
+#   139s/Y\[0\] = /Y[-1] = /                  post outer-ranks-kept, neighbouring-ranks-agree                 (failed)
+#   141s/Y\[::-1\]/Y/                         post fresh-list (refuted), outer-ranks-kept                     (failed)
+#   135s/(A, e, r)/(A, e, r+1)/               inv-keep loop0.bond-in-range                                    (failed)
+#   138s/(r1, 2, -1)/(2, r1, -1)/             post outer-ranks-kept, mode-sizes-2-and-positive-ranks          (failed)
+#   139s/^/#/                                 post outer-ranks-kept                                           (failed)
+# act_one.py / act_one.tt_to_qtt
+#   326s/(G, e, r)/(G, e, r+1)/               post accuracy-and-rank-cap-are-passed-unchanged-..., inv-keep bonds-inside-a-block-... (failed)
+#   326s/(G, e, r)/(G, r, e)/                 post accuracy-and-rank-cap-are-passed-unchanged-to-every-core-conversion (failed)
+#   325s/for G in Y:/for G in Y[1:]:/         post boundary-ranks-1, neighbouring-ranks-between-blocks-agree  (failed)
+#   326s/(G, e, r)/(Y[0], e, r)/              inv-keep loop0.outer-ranks-of-block-k-are-the-TT-ranks-of-Y[k]  (failed)
+# Restructured-but-equivalent variants end undecided (Unsupported / ContractMismatch), never refuted:
+#   q*i:q*i+q slices, int(round(np.log2(n))), shape[1] // q, .transpose(), explicit reshape dims, Z += ..., list(reversed(Y));
+#   i*q:(i+1)*q, np.array(Q_list[0]) instead of .copy(), np.concatenate(.., axis=1) instead of hstack are still proved.
